@@ -213,6 +213,35 @@ class Ctx:
                 out.append((g, dirn, bb, line, self.expand_params(g, atoms)))
         return out
 
+    # ------------------------------------------------------------------ K14 error discipline
+    def no_dropped_results(self, rule, key, crates, what):
+        """No `Result` produced by a call in actor code is discarded: it is propagated (`?`), returned, inspected (match / if let /
+        unwrap family) or handed to another call.  `let _ = fallible();` and `fallible().ok();` lose an error of the storage, ledger
+        or messaging layer and let the method succeed on top of it.  The pinned tree has no such site among ~2900 Result-producing
+        calls, so every report is a change."""
+        bad = []
+        n = 0
+        for f in self.prog.bodies():
+            if f.crate not in crates or f.kind not in ('fn', 'assocfn', 'closure') or f.exp or NEUTRAL.search(f.id):
+                continue
+            for c in f.calls:
+                if c.exp:
+                    continue
+                dl = c.dst[0]
+                ty = f.locals[dl][0] if dl < len(f.locals) else ''
+                if not (ty.startswith('core::result::Result<') or ty.startswith('std::result::Result<')) or c.dst[1]:
+                    continue
+                n += 1
+                if _discarded(f, c):
+                    bad.append(c)
+        for c in bad:
+            self.rep.ob(rule, '%s:%s@%s' % (key, c.fn.id.split('::', 1)[-1], (c.callee or c.defp or '?').split('::')[-1]), False,
+                        '%s: the Result of %s is discarded (neither propagated, returned, inspected nor passed on)' % (what, c.callee or c.defp), c.where)
+        if not bad:
+            self.rep.ob(rule, key, True, '%s: %d Result-producing calls, none discarded' % (what, n))
+        self.rep.count('result_producing_calls:' + key, n)
+        return not bad
+
     # ------------------------------------------------------------------ K12 accumulators
     AMOUNT_TYPES = ('fvm_shared::econ::TokenAmount', 'num_bigint::bigint::BigInt', 'partition_state::PowerPair', 'fil_actor_miner::partition_state::PowerPair')
 
@@ -976,6 +1005,71 @@ def _bool_result_blocks(h, value):
         if t[0] == 'call' and t[3][0] == 0 and not t[3][1]:
             out.append(bi)
     return out
+
+
+def _uses_of(f, l):
+    """(kind, payload) uses of local l in f: ('stmt', dst local), ('call', Call-terminator block), ('switch', bb), ('ret',)"""
+    out = []
+    for bi, b in enumerate(f.blocks):
+        if b.get('cleanup'):
+            continue
+        for st in b['s']:
+            if st[0] != '=':
+                continue
+            if _mentions(st[2], l):
+                out.append(('stmt', st[1][0]))
+        t = b['t']
+        if t[0] == 'call' and any(_mentions(a, l) for a in t[2]):
+            out.append(('call', bi))
+        elif t[0] == 'switch' and _mentions(t[1], l):
+            out.append(('switch', bi))
+    return out
+
+
+def _mentions(node, l):
+    if isinstance(node, list):
+        if len(node) == 2 and isinstance(node[0], int) and not isinstance(node[0], bool) and isinstance(node[1], list):
+            if node[0] == l:
+                return True
+            return any(isinstance(p, list) and p and p[0] == 'i' and p[1] == l for p in node[1])
+        return any(_mentions(x, l) for x in node)
+    return False
+
+
+_SWALLOW = ('::ok', '::err', '::is_ok', '::is_err', '::unwrap_or_default')
+
+
+def _discarded(f, c, depth=0):
+    """the value produced by call c is never looked at: no use at all, or only handed to `.ok()` / `.is_ok()`-style adaptors whose
+    own result is never looked at, or moved into `_0`-less temporaries that are never used"""
+    l = c.dst[0]
+    if l == 0:
+        return False
+    seen = set()
+    work = [l]
+    while work:
+        x = work.pop()
+        if x in seen:
+            continue
+        seen.add(x)
+        if x == 0:
+            return False
+        us = _uses_of(f, x)
+        for (k, p) in us:
+            if k == 'switch':
+                return False
+            if k == 'stmt':
+                work.append(p)
+            elif k == 'call':
+                t = f.blocks[p]['t']
+                name = (t[1].get('res') or t[1].get('def') or '')
+                if name.startswith('core::result::Result') and name.endswith(_SWALLOW) or name.startswith('core::option::Option') and name.endswith(('::is_some', '::is_none')):
+                    work.append(t[3][0])      # the adaptor's own result must be used for the error to count as seen
+                elif name.endswith('mem::drop') or name.endswith('::drop'):
+                    continue
+                else:
+                    return False
+    return True
 
 
 # ---------------------------------------------------------------------- running totals
